@@ -82,17 +82,18 @@ def _approx_eq(a, b, tol=1e-9):
 
 
 def _le(a, b, tol=1e-9):
+    # order comparisons are exact (facts are also met in simplified, negated forms: a tolerance on <= would become a strict margin
+    # under the negation); only equalities between floats are approximate
     if _exact(a) and _exact(b):
         return a <= b
-    a, b = float(a), float(b)
-    return a <= b + tol * max(1.0, abs(a), abs(b))
+    return float(a) <= float(b)
 
 
 def _lt(a, b, tol=1e-9):
+    # strict inequalities are taken as they are (no tolerance): a fact `w > 0` about a tiny positive float must not fail by rounding slack
     if _exact(a) and _exact(b):
         return a < b
-    a, b = float(a), float(b)
-    return a < b - tol * max(1.0, abs(a), abs(b))
+    return float(a) < float(b)
 
 
 def _rint(x):
@@ -315,7 +316,8 @@ class EngineEnv:
             i = idx[0]
             if is_conc(i):
                 if not (0 <= int(i) < len(x)):
-                    raise EngineError("concrete index outside a symbolic-length argument")
+                    # like an uninterpreted input array: SOME value (a fresh symbol — any dependence of the result on it shows up)
+                    return sv.fresh_int("oob") if kind in ("int", "bool") else sv.fresh_real("oob")
                 return pick(x[int(i)], idx[1:])
             if not x:
                 raise EngineError("index into an empty array")
@@ -965,9 +967,14 @@ class Comparer:
 EXC_ALIASES = {"UFuncTypeError": {"UFuncTypeError", "TypeError", "_UFuncOutputCastingError"}, "FrozenInstanceError": {"FrozenInstanceError", "AttributeError"}}
 
 
-def _decide_pending_sides(eo):
-    """side obligations that are not ground: fail if their negation is satisfiable under the path assumptions"""
+def _decide_pending_sides(eo, only_symbol_free=False):
+    """side obligations that are not ground: fail if their negation is satisfiable under the path assumptions.  only_symbol_free
+    (relational runs): only those without result symbols (uninterpreted applications); the others wait for the binding"""
+    keep = []
     for so in eo.side_pending:
+        if only_symbol_free and any(nm not in INTENDED and sigma.BY_DECL.get(nm) is None for nm in axioms.collect_apps([so.cond])):
+            keep.append(so)
+            continue
         s_ = z3.Solver()
         s_.set("timeout", 3000)
         for f in list(eo.state.facts) + list(so.pc):
@@ -975,13 +982,15 @@ def _decide_pending_sides(eo):
         s_.add(z3.Not(so.cond))
         if s_.check() == z3.sat:
             eo.side_failed.append(so.kind)
-    eo.side_pending = []
+    eo.side_pending = keep
 
 
 def compare_case(sn, eo, real, case=None):
     """-> (status, details)   status: agree | DISAGREE | not-modelled"""
-    if not (sn.get("binder") and "exc" not in real):
-        _decide_pending_sides(eo)
+    if not ((sn.get("kind") == "rel" or eo.env.symlen) and "exc" not in real and eo.kind == "ret"):
+        _decide_pending_sides(eo)       # (relational runs: decided after the result symbols are bound, rel_check)
+    else:
+        _decide_pending_sides(eo, only_symbol_free=True)
     if eo.kind == "not-modelled":
         return "not-modelled", [eo.msg]
     if eo.kind == "fault":
@@ -1201,12 +1210,13 @@ def rel_check(sn, eo, cmpr, pl):
             cmpr.d(path2, "nested symbolic shape")
     if cmpr.diffs:
         return
+    side_solver = []
     for so in eo.side_pending:
         try:
             if not ze(so.cond):
                 cmpr.d("side obligation", f"{so.kind} is false for the real output (the contract's precondition would reject this call)")
         except Unbound:
-            notes.append(f"side obligation {so.kind} not evaluable after binding")
+            side_solver.append(so)
     if cmpr.diffs:
         return
     # ---- the assumed facts
@@ -1268,8 +1278,20 @@ def rel_check(sn, eo, cmpr, pl):
             continue
         nchecked += 1
         if not ok:
-            cmpr.d("fact", f"{label} is FALSE on the real output: {str(z3.simplify(f))[:200]}")
-    if (need_solver or equations) and not cmpr.diffs:
+            # name the false conjuncts of the consequent
+            culprit = f
+            for _ in range(4):
+                kids = culprit.children() if z3.is_app(culprit) else []
+                if z3.is_implies(culprit):
+                    culprit = kids[1]
+                    continue
+                bad_k = [c for c in kids if z3.is_bool(c) and ze(c) is False] if z3.is_and(culprit) else []
+                if len(bad_k) >= 1:
+                    culprit = bad_k[0]
+                    continue
+                break
+            cmpr.d("fact", f"{label} is FALSE on the real output: " + " ".join(str(culprit).split())[:500])
+    if (need_solver or equations or side_solver) and not cmpr.diffs:
         s = z3.Solver()
         s.set("timeout", int(sn.get("solver_ms", 4000)))
         forms = [f for _, f in need_solver]
@@ -1300,6 +1322,13 @@ def rel_check(sn, eo, cmpr, pl):
             app = d(*[_val_term(a, d.domain(i)) for i, a in enumerate(args)]) if args else d()
             s.add(app == _val_term(val, app.sort()))
         r = s.check()
+        if r == z3.sat:
+            for so in side_solver:
+                s.push()
+                s.add(z3.Not(so.cond))
+                if s.check() == z3.sat:
+                    notes.append(f"side obligation {so.kind} is not implied by the assumed facts for this output (narrower contract)")
+                s.pop()
         hint = "; ".join(lbl for lbl, _ in need_solver[:3]) + (f"; {len(equations)} equations term = real value" if equations else "")
         if r == z3.unsat:
             if inexact:
@@ -1548,6 +1577,7 @@ def main():
     ap.add_argument("--list", action="store_true")
     ap.add_argument("--no-report", action="store_true")
     ap.add_argument("--seed", type=int, default=20260930)
+    ap.add_argument("--markdown", action="store_true", help="print the coverage / limitation / not-modelled tables for design_notes/LIBCHECK.md")
     ap.add_argument("--no-sym", action="store_true", help="skip the symbolic-length re-run of the value snippets")
     args = ap.parse_args()
     t0 = time.time()
@@ -1638,6 +1668,29 @@ def main():
         print(f"[libcheck] library names of evidence/*.json without a snippet: {', '.join(uncovered)}")
     if never_agree and args.verbose:
         print(f"[libcheck] names whose snippets never reached an agreeing run: {', '.join(never_agree)}")
+    if args.markdown:
+        cats = {}
+        for r in results:
+            c = cats.setdefault(r["cat"], {"snippets": 0, "runs": 0, "agree": 0, "limitation": 0, "not-modelled": 0, "DISAGREE": 0})
+            c["snippets"] += 1
+            for x in r["runs"]:
+                c["runs"] += 1
+                c[x["status"]] += 1
+        print("\n| section | snippets | runs | agree | declared limitation | not modelled | DISAGREE |\n|---|---|---|---|---|---|---|")
+        for k in sorted(cats):
+            c = cats[k]
+            print(f"| {k} | {c['snippets']} | {c['runs']} | {c['agree']} | {c['limitation']} | {c['not-modelled']} | {c['DISAGREE']} |")
+        print("\nlibrary names exercised: " + ", ".join(f"`{k}`" for k in sorted(by_func) if not k.startswith("axiom:")))
+        print("\n| snippet | declared limitation |\n|---|---|")
+        for sid, why in sorted({(sid, x["detail"][0]) for sid, x in lim}):
+            print(f"| `{sid}` | {why} |")
+        print("\n| snippet (first table / case) | the engine refuses: |\n|---|---|")
+        seen_n = set()
+        for sid, x in nm:
+            if sid in seen_n:
+                continue
+            seen_n.add(sid)
+            print(f"| `{sid}` [{x['table']}#{x['case']}] | {x['detail'][0][:170]} |")
     if not args.no_report and not args.filter:
         rep = {"tool": "tools/libcheck.py", "what": "differential validation of the assumed library contracts (validation on finitely many inputs, not proof)",
                "versions": real["versions"], "z3": z3.get_version_string(), "seed": args.seed, "summary": summary,
